@@ -271,7 +271,7 @@ def _rsa_pubkey_parsing(subject_public_key_info, cert_alg):
     self_subject_public_key = ASN1Parser(self_subject_public_key).value[1:]
 
     # Adjust for BIT STRING encapsulation
-    if subject_public_key.value[0]:
+    if not subject_public_key.value or subject_public_key.value[0]:
         raise SyntaxError()
     subject_public_key = ASN1Parser(subject_public_key.value[1:])
 
@@ -327,7 +327,7 @@ def _dsa_pubkey_parsing(subject_public_key_info):
     public_key = subject_public_key_info.getChild(1)
 
     # Adjust for BIT STRING encapsulation and get hex value
-    if public_key.value[0]:
+    if not public_key.value or public_key.value[0]:
         raise SyntaxError()
     # pylint: disable=invalid-name
     y = ASN1Parser(public_key.value[1:])
